@@ -14,6 +14,7 @@ global size_of usize == 8;
 //@include spec/machine.rs
 //@include spec/state_specs.rs
 //@include spec/cell_specs.rs
+//@include spec/xmap_specs.rs
 //@include spec/arith_specs.rs
 
 #[verifier::external_body] fn verif_lit_xstr() -> Xstr { unimplemented!() }
